@@ -20,6 +20,10 @@ chk("C03","exploration",
     "Same engine as C02 with the publish-permission oracles: every attempt is classified entitled/not entitled from the store rows and attachment history; accepted => entitled; rejected => error reply with the request id and no effect (no store write between request and quiescence, no frame at any session, no push); entitled => accepted. Includes me/fnd, system topic without attachment, anonymous level, root on behalf of a user, owner suspended (read-only topic) and a publish racing {del topic} while the store call is slowed.",
     "vfmem mirrors the adapter contract; 'being deleted' is explored through one injected delay at TopicDelete, not all schedules.",
     "offline oracle over client frames + store-call log with ground-truth rows","sim","DESIGN.md 3/C03")
+chk("C04","exploration",
+    "Reference-model differential at the client boundary on the running server: random histories of publishes, soft/hard deletes with generated range lists (unsorted, overlapping, nested, adjacent, touching, duplicated, singles, bounds beyond the last id, invalid lists), history queries with absent/zero/inverted/beyond-last bounds and limits, deletion-log queries and unsubscribe/resubscribe, by owner / member / member with D / member without R; every answer and every MessageDeleteList argument is compared with an independent model. RangeSorter.Normalize additionally gets an exhaustive small-scope run (all lists of <=3 well-formed ranges over 1..8/1..10).",
+    "vfmem mirrors the messages/dellog contract; the SQL BETWEEN arithmetic of the real adapters is not exercised; limits above the adapter maximum (100) are checked against vfmem's maximum.",
+    "reference-model differential over recorded answers + exhaustive small-scope enumeration","sim","DESIGN.md 3/C04")
 chk("C05","exploration",
     "Runtime oracle over the real AccessMode code: every one of the 256x256 permission pairs is pushed through Delta/ApplyDelta/ApplyMutation and every set through text/JSON/SQL round trips (finite core enumerated completely); all short strings over the mode alphabet plus junk are compared with an independent reference for the stated laws (unknown letters rejected and target unchanged, empty = no change, N = none). The on-the-wire intersection law and the notification-replay clause are monitored in the C07 engine runs and reported there.",
     "Reference parser in harness/types/c05.go is trusted; strings longer than 5 are sampled, not enumerated; proxy replay through updateAcsFromPresMsg is exercised by the sim engine (C07), not here.",
